@@ -13,14 +13,18 @@ ASSUMPTIONS = ['valid curves; t1>=0; t2 >= detector minimum (3; 4 for Menger and
 
 
 @core.safe_case
-def one(ctx, kind, pts, t1, t2, family):
+def one(ctx, kind, pts, t1, t2, family, int_dtype=None):
     import kneeliverse.linear_fit as lf
     n = len(pts)
-    case = dict(detector=kind, t1=float(t1), t2=int(t2), points=pts.tolist())
+    if int_dtype is None:
+        int_dtype = detfam.integral_small(pts) and ctx.rng.random() < 0.3
+    if int_dtype:
+        ctx.tag('input:int64-dtype')
+    case = dict(detector=kind, t1=float(t1), t2=int(t2), points=pts.tolist(), int_dtype=bool(int_dtype))
     site = f'{kind}.multi_knee'
     real = None
     try:
-        out, cnt = detfam.real_multi(kind, pts, t1, t2)
+        out, cnt = detfam.real_multi(kind, pts, t1, t2, int_dtype)
         real = [int(v) for v in np.asarray(out).tolist()]
     except core.LoopBudgetExceeded as e:
         ctx.fail('predicate', 'terminates', site, case, str(e))
@@ -50,6 +54,19 @@ def one(ctx, kind, pts, t1, t2, family):
             if sm == t1:
                 ctx.tag('tie:smape==t1')
             gate_open = n > t2 and sm >= t1
+            # the same gate from the DEFINITION (end-point line through the translated points, SMAPE as defined), independent of the package's
+            # linear_fit / smape; only conclusive verdicts count (rounding of m*x+b is bounded by noise_abs)
+            if n > max(t2, 2) and real and np.all(np.isfinite(pts)):
+                x, y = pts[:, 0].astype(float), pts[:, 1].astype(float)
+                mm = (y[-1] - y[0]) / (x[-1] - x[0])
+                yh = y[0] + mm * (x - x[0])
+                noise_abs = 8 * np.finfo(float).eps * (abs(mm) * float(np.max(np.abs(x))) + float(np.max(np.abs(y))))
+                if float(np.min(np.abs(y))) > 1e4 * noise_abs and float(np.min(np.abs(yh))) > 1e4 * noise_abs:
+                    sm_ref = float(np.mean(2.0 * np.abs(yh - y) / (np.abs(y) + np.abs(yh) + 1e-16)))
+                    if sm_ref < t1 - 1e-3 * (1 + t1):
+                        ctx.fail('predicate', 'empty-when-smape(definition)<t1', site, case, dict(knees=real, smape_definition=sm_ref, smape_package=sm))
+                else:
+                    ctx.tag('gate-reference-inconclusive(near-zero y)')
             if not gate_open:
                 if real:
                     ctx.fail('predicate', 'empty-when-n<=t2-or-smape<t1', site, case, dict(knees=real, smape=sm))
@@ -57,6 +74,8 @@ def one(ctx, kind, pts, t1, t2, family):
                 # self-similarity with the REAL knee() and REAL multi_knee() on the real slices
                 m = detfam.mods()[kind]
                 try:
+                    if int_dtype:
+                        pts = pts.astype(np.int64)
                     k = m.knee(pts)
                     if k is None:
                         want = []
@@ -90,6 +109,9 @@ def run(ctx):
             pts, fam = gen.trace_window(rng, 60)
             if pts is None:
                 pts, fam = gen.dyadic_curve(rng, n, scale_exp=0)
+        if not fam.startswith('trace'):
+            pts, vt = gen.variant(rng, pts, 0.2)
+            fam += vt
         n = len(pts)
         t2 = detfam.MIN_T2[kind] + rng.choice([0, 0, 0, 1, 2, 5])
         if rng.random() < 0.3 and n >= 3:
@@ -103,4 +125,4 @@ def run(ctx):
 
 def replay(ctx, body):
     c = body['case']
-    one(ctx, c['detector'], np.array(c['points'], float), c['t1'], c['t2'], 'replay')
+    one(ctx, c['detector'], np.array(c['points'], float), c['t1'], c['t2'], 'replay', bool(c.get('int_dtype', False)))
